@@ -108,3 +108,11 @@ claim("C19", "property-based testing over generated inscriptions and server conf
 claim("C18", "differential property testing: HTTP JSON of an in-process ord server vs the table dump, over generated index states",
       "Every JSON/recursive route is requested for sampled objects of generated chains (incl. page boundaries) and compared field by field with the H1 dump and the generated blocks; pagination is recomputed by the harness.",
       "Bodies are deserialised with ord::api types; spaced runes compared in printed form.")
+
+claim("C22", "property-based testing: real `ord wallet send/burn/split` commands over generated rune inventories audited against the index, plus the split constructor (hook H7) against an independent runes transfer evaluator",
+      "Generated wallets (up to 3 runes, several runes per output, several outputs per rune, inscribed runic outputs) and requests (zero, one, fraction, full, too much); after mining, recipients hold exactly the requested amounts, burned supply grows by exactly the requested burn, everything else returns to wallet addresses, and zero requests are rejected.",
+      "E2E balances are read from ord's index (C08-C11 check it); the split part uses the harness' own transfer rules and runestone decoder; amounts are capped so that sums fit u128.")
+
+claim("C23", "property-based testing: real node-funded `ord wallet` commands over generated mixed wallets, observed at the mock node's mempool and lock set",
+      "Generated wallets mix cardinal, inscribed, runic and inscribed+runic outputs (non-cardinal ones more valuable, the mock funds largest-first); send, send/burn runes, mint, split and offer create must produce transactions whose inputs are cardinal or the command's own subject, and must leave every other inscribed or runic output locked.",
+      "mock fundrawtransaction stands in for bitcoind coin selection; mockcore feature `verif` gives lockunspent Bitcoin Core's semantics; sweep is not driven.")
